@@ -117,7 +117,7 @@ fn cmd_worker(args: &Args) -> i32 {
         out: args.get("out").unwrap_or("/dev/stdout").to_string(),
         known,
         want_hashes: args.get("want-hashes").is_some(),
-        hang_secs: args.num("hang-secs", 20),
+        hang_secs: args.num("hang-secs", 120),
         deadline_secs: args.num("deadline-secs", 0),
         trace: args.get("trace").map(|s| s.to_string()),
     };
@@ -136,7 +136,7 @@ fn cmd_gen(args: &Args) -> i32 {
 
 #[allow(clippy::too_many_arguments)]
 fn spawn_one(prop_id: &str, seed: u64, from: u64, to: u64, j: u64, jobs: u64, out: &str, known: &[String], want_hashes: bool, deadline: u64, trace: Option<&str>) -> std::process::Child {
-    let hang_secs = std::env::var("SIMCHECK_HANG_SECS").unwrap_or_else(|_| "20".to_string());
+    let hang_secs = std::env::var("SIMCHECK_HANG_SECS").unwrap_or_else(|_| "120".to_string());
     let exe = std::env::current_exe().expect("current_exe");
     let _ = std::fs::remove_file(out);
     // C18: workers run unprivileged (so that permission faults are real); see bin/check_c18
@@ -572,7 +572,7 @@ fn minimise_children(rf: &mut ReplayFile, tmp: &str, max_candidates: usize) {
         if std::fs::write(tmp, serde_json::to_string(cand).unwrap()).is_err() {
             return false;
         }
-        let st = wrapped_self().arg("replay").arg(tmp).arg("--quiet").arg("1").env("SIMCHECK_REPLAY_HANG_SECS", "3").stdout(std::process::Stdio::null()).stderr(std::process::Stdio::null()).status();
+        let st = wrapped_self().arg("replay").arg(tmp).arg("--quiet").arg("1").env("SIMCHECK_REPLAY_HANG_SECS", "10").stdout(std::process::Stdio::null()).stderr(std::process::Stdio::null()).status();
         matches!(st.map(|s| s.code()), Ok(Some(1)))
     };
     if !still_hangs(rf, &mut budget) {
@@ -764,7 +764,7 @@ fn cmd_replay(args: &Args) -> i32 {
     let pid = rf.property.clone();
     let path2 = path.clone();
     std::thread::spawn(move || {
-        let hs: u64 = std::env::var("SIMCHECK_REPLAY_HANG_SECS").ok().and_then(|x| x.parse().ok()).unwrap_or(20);
+        let hs: u64 = std::env::var("SIMCHECK_REPLAY_HANG_SECS").ok().and_then(|x| x.parse().ok()).unwrap_or(120);
         std::thread::sleep(std::time::Duration::from_secs(if expect_hang { hs } else { 120 }));
         if expect_hang {
             println!("VIOLATION property={} replay={}", pid, path2);
